@@ -15,8 +15,8 @@ import (
 var MalformedKinds = map[string][]string{
 	"QueueLeaf":               {"queued.absent", "queued.leaf.absent", "leaf.undecodable", "leaf.trailing", "leaf.empty"},
 	"GetLatestSignedLogRoot":  {"root.absent", "root.garbled", "root.empty", "root.hashsize", "root.hashlong"},
-	"GetLeavesByRange":        {"root.absent", "root.garbled", "tree.small", "leaves.surplus", "leaves.misindexed"},
-	"GetInclusionProofByHash": {"root.absent", "root.garbled", "tree.small", "proof.hashsize", "proofs.empty"},
+	"GetLeavesByRange":        {"root.absent", "root.garbled", "tree.small", "leaves.surplus", "leaves.misindexed", "leaves.interior"},
+	"GetInclusionProofByHash": {"root.absent", "root.garbled", "tree.small", "proof.hashsize", "proofs.empty", "proofs.second-garbled"},
 	"GetConsistencyProof":     {"root.absent", "root.garbled", "tree.small", "proof.absent", "proof.hashsize"},
 	"GetEntryAndProof":        {"root.absent", "root.garbled", "tree.small", "leaf.absent", "proof.absent", "leaf.empty", "proof.hashes.absent"},
 }
@@ -99,6 +99,17 @@ func mutate(rpc string, req, rsp proto.Message, kind string) proto.Message {
 			if len(r.Leaves) > 0 {
 				r.Leaves[len(r.Leaves)-1].LeafIndex += 3
 			}
+		case "leaves.interior":
+			// right count, right first and last leaf, but the inside of the page out of order (4 or more leaves) or with
+			// one leaf twice and its neighbour missing (3); shorter pages have no inside: the last leaf is misindexed
+			switch n := len(r.Leaves); {
+			case n >= 4:
+				r.Leaves[1], r.Leaves[2] = r.Leaves[2], r.Leaves[1]
+			case n == 3:
+				r.Leaves[1] = proto.Clone(r.Leaves[0]).(*trillian.LogLeaf)
+			case n > 0:
+				r.Leaves[n-1].LeafIndex += 3
+			}
 		}
 	case *trillian.GetInclusionProofByHashResponse:
 		if nr, ok := mutateRoot(r.SignedLogRoot, kind); ok {
@@ -115,6 +126,12 @@ func mutate(rpc string, req, rsp proto.Message, kind string) proto.Message {
 			}
 		case "proofs.empty":
 			r.Proof = nil
+		case "proofs.second-garbled":
+			// the honest proof first, and behind it a proof for a lower index whose hashes have the wrong size (a backend
+			// that lists one proof per duplicate of the leaf, out of order, one of them broken)
+			if len(r.Proof) > 0 && r.Proof[0].LeafIndex > 0 {
+				r.Proof = append(r.Proof, &trillian.Proof{LeafIndex: r.Proof[0].LeafIndex - 1, Hashes: [][]byte{make([]byte, 5), {}}})
+			}
 		}
 	case *trillian.GetConsistencyProofResponse:
 		if nr, ok := mutateRoot(r.SignedLogRoot, kind); ok {
